@@ -173,6 +173,51 @@ class Session:
         return st, self.last[1] if st == "ok" else val
 
 
+def faulting_last_step(sess):
+    """round 6, after the history (the trace is complete; nothing here reaches the model).  ALL-STEP manager only, in
+    the middle of an episode: one more step in which the simulation RAISES from a `get_info` - after the observations,
+    rewards and done flags of that step were read -, the caller catches that and steps again.  The agents the manager
+    has not REPORTED as done are still its to report: the second step must accept an action for each of them and
+    report each of them (C07: "reports every learning agent that is not yet done"; C01: an action is rejected only
+    for an agent already reported done).  Returns a description of what went wrong, or None."""
+    if sess.kind != 0 or sess.dead or sess.last is None or len(sess.ops) % 2:
+        return None
+    sim = sess.sim
+    lk, val = sess.last
+    if lk == "r":
+        live = list(val.keys()) if isinstance(val, dict) else []
+    else:
+        done = val[2] if isinstance(val, tuple) and len(val) == 4 and isinstance(val[2], dict) else None
+        if done is None or done.get("__all__"):
+            return None
+        live = [k for k, d in done.items() if k != "__all__" and not d]
+    if sess.script.get("scribble"):
+        return None                     # (the outputs were emptied by the caller: nothing to read the live agents from)
+    if len(live) < 2:
+        return None
+    sim.info_fault_in, sim.info_fault_fired = len(live) - 1, False      # the LAST info of the step
+    with scripted(sess.tape):
+        st, _ = guarded(lambda: sess.mgr.step({k: 0 for k in live}))
+    sim.info_fault_in = None
+    if st == "ok" or not getattr(sim, "info_fault_fired", False):
+        return None                     # the fault did not fire (the simulation finished, the manager asked less)
+    sess.dead = True
+    if sim.get_all_done():
+        return None
+    # who finished in the interrupted step was never told: every one of `live` is still unreported
+    with scripted(sess.tape):
+        st, val = guarded(lambda: sess.mgr.step({k: 0 for k in live}))
+    if st != "ok":
+        return ("after a step that the simulation interrupted (get_info raised once), the next step with actions for "
+                "the agents not yet reported done was not accepted: %s %s" % (st, val))
+    obs = val[0]
+    missing = [k for k in live if k not in obs]
+    if missing:
+        return ("after a step that the simulation interrupted (get_info raised once), agents that were never reported "
+                "done are missing from the next report: %s" % sorted(sim.idx[k] for k in missing))
+    return None
+
+
 def run_concrete(kind, shuffle, script, tape, ops):
     s = Session(kind, shuffle, script, tape)
     for op in ops:
